@@ -29,7 +29,7 @@ anything else than these rewrites:
       straight-line procedure) is substituted at its calls;
   N6d a pure search with a found-flag (`for..: for..: if c: <acts>; flag = True; break` / `if flag: break`): the acts are done right
       behind the loops under `if flag:`; `if t: A` directly followed by `if t: B else: C` is `if t: A; B else: C` (t a local name);
-  N6e `a, b = x, y` (names) is `a = x; b = y`; `list(sorted(..))` is `sorted(..)`; `attrgetter('a', 'b')` is `lambda v: (v.a, v.b)`;
+  N6e `a, b = x, y` (names) is `a = x; b = y`; `v = list(X); v.sort(key=k)` is `v = sorted(X, key=k)`; `list(sorted(..))` is `sorted(..)`; `attrgetter('a', 'b')` is `lambda v: (v.a, v.b)`;
       `v.reverse(); return v` for a list built here and held by nobody else is `return v[::-1]`; `sum(len(x) for x in S) == 0` is `not any(S)`;
   N7  `x = x op e` is `x op= e`; `v = <constant or empty container>` for a local v sinks past statements that do not mention v
       and into both arms of an if/else;
@@ -417,6 +417,8 @@ def _boolean_valued(e: ast.AST) -> bool:
         return all(_boolean_valued(v) for v in e.values)
     if isinstance(e, ast.Call) and isinstance(e.func, ast.Name) and e.func.id in ("isinstance", "all", "any", "bool", "callable", "hasattr", "_tt"):
         return True
+    if isinstance(e, ast.IfExp):
+        return _boolean_valued(e.body) and _boolean_valued(e.orelse)
     return isinstance(e, ast.Constant) and isinstance(e.value, bool)
 
 
@@ -791,6 +793,27 @@ def _merge_same_test_ifs(fn) -> bool:
                     and not _ends_in_jump(x.body):
                 y.body[:0] = x.body
                 b.pop(i)
+                changed = True
+                continue
+            i += 1
+    return changed
+
+
+def _sort_in_place(fn) -> bool:
+    """`v = list(X)` directly followed by `v.sort(<keywords>)` is `v = sorted(X, <keywords>)`: both build a new list and sort it stably."""
+    changed = False
+    for owner, f, b in list(_blocks(fn)):
+        i = 0
+        while i + 1 < len(b):
+            s, t = b[i], b[i + 1]
+            if isinstance(s, ast.Assign) and len(s.targets) == 1 and isinstance(s.targets[0], ast.Name) and isinstance(s.value, ast.Call) \
+                    and isinstance(s.value.func, ast.Name) and s.value.func.id == "list" and len(s.value.args) == 1 and not s.value.keywords \
+                    and isinstance(t, ast.Expr) and isinstance(t.value, ast.Call) and isinstance(t.value.func, ast.Attribute) and t.value.func.attr == "sort" \
+                    and isinstance(t.value.func.value, ast.Name) and t.value.func.value.id == s.targets[0].id and not t.value.args \
+                    and not any(isinstance(n, ast.Name) and n.id == s.targets[0].id for k in t.value.keywords for n in ast.walk(k.value)):
+                s.value = ast.Call(func=ast.Name(id="sorted", ctx=ast.Load()), args=[s.value.args[0]], keywords=t.value.keywords)
+                b.pop(i + 1)
+                ast.fix_missing_locations(fn)
                 changed = True
                 continue
             i += 1
@@ -1348,6 +1371,7 @@ def nf_text(fn: ast.AST, sigs: Optional[Dict[str, List[str]]] = None, inline: bo
         changed |= _hoist_hit_body(f)
         changed |= _merge_same_test_ifs(f)
         changed |= _split_tuple_assignments(f)
+        changed |= _sort_in_place(f)
         changed |= _reverse_then_return(f)
         ast.fix_missing_locations(f)
         changed |= bool(canon.drop_self_assignments(f))
